@@ -45,11 +45,17 @@ def classify_known(f, known):
     if f["stream"] != "gen.oracle09":
         return None
     out = f["impl"]
-    if "F-C09-1" in ids and out == "FAIL hint-differs:validated=N:helper=S:-":
-        return "F-C09-1"
-    if "F-C09-2" in ids and out.startswith("FAIL lookup-fails:") and " " not in out[5:] and f["case"].endswith(" extras"):
-        return "F-C09-2"
-    return None
+    if not out.startswith("FAIL "):
+        return None
+    hit = []
+    for part in out[5:].split(" "):
+        if part == "hint-differs:validated=N:helper=S:-" and "F-C09-1" in ids:
+            hit.append("F-C09-1")
+        elif part.startswith("lookup-fails:") and part[13:].isdigit() and "F-C09-2" in ids and f["case"].endswith(" extras"):
+            hit.append("F-C09-2")
+        else:
+            return None                 # any other component is a new violation
+    return hit[0] if hit else None
 
 
 def memo_rewriter(rng, allow_empty):
@@ -212,7 +218,7 @@ def run(ctx):
         rep.evaluations += 1
         return
 
-    n = 110 if tier == "quick" else 5000
+    n = int(os.environ.get("VERIF_GEN_N", "0")) or (110 if tier == "quick" else 2500)
     cases = []
     allow_empty = "F-C09-1" in listed
     allow_extras = "F-C09-2" in listed
@@ -275,15 +281,17 @@ def run(ctx):
             prog = ser((b"\x01", (to_list(spends), b"")))
             cases.append({"program": prog, "refs": [], "flags": F["DONT_VALIDATE_SIGNATURE"], "max_cost": G.BLOCK, "kind": "twins",
                           "tags": [("twins", differ)], "memo_used": []})
-    limit = 10 ** 9
-    for name, prog, refs in G.file_cases(tier, env, limit):
+    impl_only = []
+    for name, prog, refs, big in G.file_cases(tier, env):
         for fl in [F["DONT_VALIDATE_SIGNATURE"], env.mempool_mode | F["DONT_VALIDATE_SIGNATURE"]]:
             if name in ("aa-million-messages", "aa-million-message-spends"):
                 fl |= F["COST_CONDITIONS"]
-            cases.append({"program": prog, "refs": refs, "flags": fl, "max_cost": G.BLOCK, "kind": "file", "tags": [("file", name)]})
+            (impl_only if big else cases).append({"program": prog, "refs": refs, "flags": fl, "max_cost": G.BLOCK, "kind": "file",
+                                                   "tags": [("file", name)]})
     run_trusted(rep, cases, ctx["have_model"])
     run_sbadd(rep, cases, ctx["have_model"])
-    oracle(rep, cases, listed)
+    oracle(rep, cases + impl_only, listed)
+    rep.streams["gen.oracle09"]["implementation_only_files"] = sorted({t[1] for c in impl_only for t in c["tags"]})
 
     # pending / known divergence classes: fixed witnesses, strict oracle (see notes/gen.md)
     cc = lambda memo: to_list([b"\x33", b"\x22" * 32, canon(5)] + memo)
